@@ -88,6 +88,19 @@ def variants(p, guard, r):
         yield "no_guard", q, "ANY"
 
 
+EXTRA_DIRECTIVES = [["# pragma once"], ["# undef FOO"], ["# ifdef FOO", "# endif"], ["# if defined(FOO)", "# elif BAR", "# else", "# endif"],
+                    ["# ifndef OTHER_H", "# endif"], ["# pragma pack(1)"]]
+
+
+def with_directives(p, r):
+    """the same header with other directives inside the protected region (none of them is a guard)"""
+    q = p.copy()
+    i1 = find(q, "pp_define_guard")[0]
+    new = [Line("pp_other", [(t, "pp")], 1) for t in r.choice(EXTRA_DIRECTIVES)]
+    q.lines[i1 + 1:i1 + 1] = [Line("blank", [])] + new
+    return q
+
+
 def run_shard(spec):
     sh = Shard(max_per_sig=3)
     r = random.Random("c14/%s/%d" % (spec["seed"], spec["shard"]))
@@ -96,15 +109,21 @@ def run_shard(spec):
         guard = name.upper().replace(".", "_")
         p = conf.make("c14/%s/%d/%d" % (spec["seed"], spec["shard"], k), "h", name=name)
         assert p.meta["guard"] == guard
+        setting = k % 4       # 0, 1: plain; 2: other directives inside the region; 3: the define-value checks switched off
+        if setting == 2:
+            p = with_directives(p, r)
+        added = ["CheckDefine"] if setting == 3 else None
         for vname, q, expect in variants(p, guard, r):
             for ext in (".h", ".c"):
                 fname = name[:-2] + ext
                 src = q.text()
-                run = core.api_run(fname, src, clock=False)
-                sh.case(fname + "\0" + src)
+                run = core.api_run(fname, src, clock=False, added=added)
+                sh.case(fname + "\0" + src + "\0" + str(added))
                 sh.count("c14.protection_codes_as_expected")
                 sh.tally("cases", vname + ext)
-                case = {"mode": "guard", "name": fname, "src": src, "variant": vname, "expect": expect if ext == ".h" else None}
+                sh.tally("settings", ["plain", "plain", "other_directives_inside", "R_CheckDefine"][setting])
+                case = {"mode": "guard", "name": fname, "src": src, "variant": vname, "expect": expect if ext == ".h" else None,
+                        "added": added}
                 if run.outcome != "ok":
                     sh.violation("not_analysed", (vname, ext, run.outcome), case, {"variant": vname, "ext": ext, "why": str(run.detail)[:120]})
                     continue
@@ -119,7 +138,7 @@ def run_shard(spec):
 
 
 def replay(case, sh):
-    run = core.api_run(case["name"], case["src"], clock=False)
+    run = core.api_run(case["name"], case["src"], clock=False, added=case.get("added"))
     sh.evaluations += 1
     got = sorted(set(d[0] for d in run.diags if d[0] in PROT)) if run.outcome == "ok" else None
     want = case.get("expect")
@@ -135,5 +154,5 @@ def finish(merged, tier, seed):
     inc = []
     if a.get("c14.protection_codes_as_expected", 0) < 2000:
         inc.append("only %d cases" % a.get("c14.protection_codes_as_expected", 0))
-    return {"inconclusive": inc, "coverage": {"cases": merged["cov"].get("cases")},
+    return {"inconclusive": inc, "coverage": {"cases": merged["cov"].get("cases"), "settings": merged["cov"].get("settings")},
             "summary": ["%d (name, variant, extension) cases" % a.get("c14.protection_codes_as_expected", 0)]}
